@@ -135,24 +135,7 @@ func (g *genState) genC01() {
 	for d := 1; d <= 22; d++ {
 		g.treeLine("deep", "w", tg.Deep(d))
 	}
-	// offsets straddling 65535/65536: two payloads around the boundary
-	for _, s1 := range []int{65520, 65530, 65531, 65532, 65533, 65534, 65535, 65536, 65540} {
-		a := &tree.Node{Kind: "bytes", Data: g.r.Bytes(s1)}
-		b := &tree.Node{Kind: "byte", U: 7}
-		g.treeLine("offset-boundary", "w", &tree.Node{Kind: "list", Elems: []*tree.Node{a, b}})
-		g.treeLine("offset-boundary", "w", &tree.Node{Kind: "msg", Tags: []uint16{2, 1}, Fields: []*tree.Node{a, b}})
-	}
-	for _, c := range []int{14, 15, 47, 48, 49, 50, 254, 255, 256, 257} {
-		l := &tree.Node{Kind: "list"}
-		m := &tree.Node{Kind: "msg"}
-		for i := 0; i < c; i++ {
-			l.Elems = append(l.Elems, tg.Scalar())
-			m.Tags = append(m.Tags, uint16(c-i))
-			m.Fields = append(m.Fields, tg.Scalar())
-		}
-		g.treeLine("count-boundary", "w", l)
-		g.treeLine("count-boundary", "w", m)
-	}
+	g.boundaryTrees(tg, "w")
 	// every permutation of the write order of a 4-field message (5 fields in the thorough tier)
 	k := 4
 	if g.thor {
@@ -220,6 +203,8 @@ func (g *genState) genC08() {
 			g.treeLine("leaf-"+strings.SplitN(v, ":", 2)[0], v, a)
 		}
 	}
+	g.boundaryTrees(tg, "w")
+	g.boundaryTrees(tg, "wr")
 	for i := 0; i < n; i++ {
 		tg.BigProb = 0
 		if i%50 == 0 {
@@ -546,4 +531,37 @@ func (g *genState) genGolden() {
 		}
 		g.emit("golden", "w,g,y="+parts[1], parts[0])
 	}
+}
+
+// boundaryTrees emits the trees that sit on the size-class boundaries: offsets around 65535/65536
+// (fields written in ascending and descending tag order), 14/15 levels, 48/49 and 255/256 entries.
+func (g *genState) boundaryTrees(tg *tree.Gen, variant string) {
+	// offsets straddling 65535/65536: two payloads around the boundary
+	for _, s1 := range []int{65520, 65530, 65531, 65532, 65533, 65534, 65535, 65536, 65540} {
+		a := &tree.Node{Kind: "bytes", Data: g.r.Bytes(s1)}
+		b := &tree.Node{Kind: "byte", U: 7}
+		g.treeLine("offset-boundary", variant, &tree.Node{Kind: "list", Elems: []*tree.Node{a, b}})
+		g.treeLine("offset-boundary", variant, &tree.Node{Kind: "msg", Tags: []uint16{2, 1}, Fields: []*tree.Node{a, b}})
+	}
+	for _, c := range []int{14, 15, 47, 48, 49, 50, 254, 255, 256, 257} {
+		l := &tree.Node{Kind: "list"}
+		m := &tree.Node{Kind: "msg"}
+		for i := 0; i < c; i++ {
+			l.Elems = append(l.Elems, tg.Scalar())
+			m.Tags = append(m.Tags, uint16(c-i))
+			m.Fields = append(m.Fields, tg.Scalar())
+		}
+		g.treeLine("count-boundary", variant, l)
+		g.treeLine("count-boundary", variant, m)
+	}
+	// compact big-form cases (also part of the golden corpus): 256 one-byte elements, tag 256
+	l := &tree.Node{Kind: "list"}
+	for i := 0; i < 256; i++ {
+		l.Elems = append(l.Elems, &tree.Node{Kind: "bool", Bool: i%3 == 0})
+	}
+	g.treeLine("compact-big", variant, l)
+	g.treeLine("compact-big", variant, &tree.Node{Kind: "list", Elems: l.Elems[:255]})
+	g.treeLine("compact-big", variant, &tree.Node{Kind: "msg", Tags: []uint16{256, 1}, Fields: []*tree.Node{{Kind: "byte", U: 9}, {Kind: "bool", Bool: true}}})
+	g.treeLine("compact-big", variant, &tree.Node{Kind: "msg", Tags: []uint16{255, 1}, Fields: []*tree.Node{{Kind: "byte", U: 9}, {Kind: "bool", Bool: true}}})
+	g.treeLine("compact-big", variant, &tree.Node{Kind: "msg", Tags: []uint16{65535, 300, 2}, Fields: []*tree.Node{{Kind: "i32", I: -7}, {Kind: "str", Data: []byte("big")}, {Kind: "u64", U: 1 << 40}}})
 }
